@@ -21,7 +21,7 @@ ISOLATE = True
 LEVEL = 'exploration'
 TIERS = {'quick': {'runs': 1500, 'wall': 85, 'min_budget': 60}, 'thorough': {'runs': 150000, 'wall': 1500, 'min_budget': 200}}
 RULE = ('one run = one generated signature (1-3 modules with imports, 1-3 sorts incl. hooked, 2-5 constructors of arity 0-2, optional cells, a parametric inj, kseq), 1-5 rewrite rules '
-        'with 0-2 variables obtained by abstracting sub-terms of the running configuration, a ground start configuration and a trace of 1-8 rule applications from an independent '
+        'with 0-3 variables obtained by abstracting sub-terms of the running configuration, a ground start configuration and a trace of 1-8 rule applications from an independent '
         'rewriter, delivered (a) as rewrite_event calls on an ExecutionProofExp built through the builder API, (b) as rewrite_event calls with rules and substitutions converted from '
         'stub Kore terms (from_kore_definition, convert_substitutions) and (c) as an LLVMRewriteTrace (rule event, configuration, rule event, ...) through get_proof_hints + '
         'from_proof_hints, where half of the streams also lose, repeat or swap an item or lose a chunk (e.g. a configuration and the rule event after it); 45% of runs inject 1-2 event-stream faults (drop / duplicate / swap / corrupt a substitution value / wrong rule). '
@@ -85,7 +85,7 @@ def generate(rng, tier):
     sorts = ['S%d' % i for i in range(rng.randint(1, 3))]
     hooked = [s for s in sorts if rng.random() < 0.2]
     consts = ['c%d' % i for i in range(rng.randint(2, 4))]
-    funs = {('f%d' % i): rng.randint(1, 2) for i in range(rng.randint(0, 2))}
+    funs = {('f%d' % i): rng.randint(1, 2) for i in range(rng.choice([0, 1, 1, 2, 3]))}
     cell = rng.random() < 0.4
     inj = rng.random() < 0.4
     kseq = rng.random() < 0.3
@@ -106,10 +106,13 @@ def generate(rng, tier):
 
     def ground(d):
         cands = [s for s in symbols if s['arity'] == 0 or d > 0]
+        wide = [s for s in symbols if s['arity'] > 0 and not s['params'] and not s['cell']]
+        if d > 0 and wide and rng.random() < 0.6:
+            cands = wide          # terms with several proper sub-terms, so that rules bind several variables to different terms
         s = rng.choice(cands if d > 0 else [s for s in symbols if s['arity'] == 0])
         return ['app', s['name'], [ground(d - 1) for _ in range(s['arity'])]]
 
-    cur = ground(rng.randint(0, 2))
+    cur = ground(rng.choice([0, 1, 2, 2, 3]))
     if cell:
         cur = ['app', 'kcell', [cur]]
     start = cur
@@ -130,7 +133,7 @@ def generate(rng, tier):
         s = {}
 
         def absd(t, top):
-            if not top and len(s) < 2 and rng.random() < 0.3:
+            if not top and len(s) < 3 and rng.random() < 0.4:
                 for v, w in s.items():
                     if w == t: return ['var', v]
                 v = names[len(s)]
